@@ -9,7 +9,7 @@
    (the branches reachable from this vocabulary).  Transcribed as written, defects included. *)
 Require Import Selen.Model.Prelude Selen.Model.Dom Selen.Model.Views Selen.Model.PropDefs.
 Require Selen.Generated.Consts.
-Require Import Selen.Model.Props.Basic Selen.Model.Props.LinInt Selen.Model.Api.
+Require Import Selen.Model.Props.Basic Selen.Model.Props.LinInt Selen.Model.Props.Neq Selen.Model.Api.
 
 (* ---- propagator descriptions: what Propagators::{add,sub,mul,modulo,equals,not_equals,
    less_than*,greater_than*,int_lin_*} push, as first-order data (printable, comparable with the
@@ -20,7 +20,7 @@ Inductive pdesc :=
 | PMod (x y : view) (s : nat)        (* Modulo { x, y, s } *)
 | PLeq (x y : view)                  (* LessThanOrEquals { x, y } *)
 | PEq (x y : view)                   (* Eq { x, y } *)
-| PNeq (x y : view)                  (* NotEquals { x, y }: prune is a no-op (neq.rs:26-31) *)
+| PNeq (x y : view)                  (* NotEquals { x, y } (neq.rs; prunes since the repair 106df3d) *)
 | PLinEq (cs : list Z) (xs : list nat) (k : Z)
 | PLinLe (cs : list Z) (xs : list nat) (k : Z)
 | PLinNe (cs : list Z) (xs : list nat) (k : Z).
@@ -47,7 +47,7 @@ Definition denote_basic (p : pdesc) : option prop :=
   | PAdd x y s => Some (mk_add x y s)
   | PLeq x y => Some (mk_leq x y)
   | PEq x y => Some (mk_eq x y)
-  | PNeq x y => Some (mk_neq_noop x y)
+  | PNeq x y => Some (mk_neq x y)
   | PLinEq cs xs k => Some (mk_lin_eq cs xs k)
   | PLinLe cs xs k => Some (mk_lin_le cs xs k)
   | PLinNe cs xs k => Some (mk_lin_ne cs xs k)
@@ -406,17 +406,6 @@ Fixpoint kf_or_not (c : cons) : bool :=
   | COr a b => match or_eq_pattern a b with Some _ => false | None => true end
   | CNot _ => true
   end.
-(* D3: a `!=` that reaches the Binary arm of materialize_constraint_kind becomes the no-op
-   NotEquals propagator.  `c` is the AST as stored (after to_linear at top level). *)
-Fixpoint has_bin_ne (c : cons) : bool :=
-  match c with
-  | CBin _ ONe _ => true
-  | CBin _ _ _ | CLinInt _ _ _ _ => false
-  | CAnd a b | COr a b => has_bin_ne a || has_bin_ne b
-  | CNot a => has_bin_ne a
-  end.
-Definition kf_nested_ne (c : cons) : bool := has_bin_ne (to_linear (fold_cons c)).
-
 (* all assignments of a store, as value lists *)
 Fixpoint all_asgs (s : store) : list (list Z) :=
   match s with
@@ -426,26 +415,24 @@ Fixpoint all_asgs (s : store) : list (list Z) :=
 Definition asg_of_list (l : list Z) : asg := fun v => nth v l 0.
 (* what the lowering of the stored AST `c` enforces: Or -> And, Not -> identity (the auxiliary
    variables' computed bounds contain every value their expression takes on the current domains:
-   ebounds_sound).  With noop_ne = false this is the meaning of the propagator DESCRIPTIONS
-   (`psat`, theorem lower_denotes_exact); with noop_ne = true additionally a Binary `!=` enforces
-   nothing, which is what the NotEquals propagator's pruning does (used by the tie to predict
-   enumerate's answer) *)
-Definition cmp_impl (op : cmp) (x y : Z) : bool := match op with ONe => true | _ => cmp_sem op x y end.
-Fixpoint impl_gen (noop_ne : bool) (c : cons) (a : asg) : bool :=
+   ebounds_sound).  This is the meaning of the propagator DESCRIPTIONS (`psat`, theorem
+   lower_denotes_exact) and, every propagator enforcing its `sat` (C05; NotEquals since the repair
+   106df3d: Props/Neq.v), what the tie uses to predict enumerate's answer.  Before that repair a
+   Binary `!=` (one nested under and/or/not, or between non-linear sides) enforced nothing (former
+   class nested_ne). *)
+Fixpoint impl_cons (c : cons) (a : asg) : bool :=
   match c with
   | CBin l op r =>
     match eval_expr l a, eval_expr r a with
-    | Some x, Some y => if noop_ne then cmp_impl op x y else cmp_sem op x y
+    | Some x, Some y => cmp_sem op x y
     | _, _ => false
     end
-  | CAnd p q => impl_gen noop_ne p a && impl_gen noop_ne q a
+  | CAnd p q => impl_cons p a && impl_cons q a
   | COr p q =>
     match or_eq_pattern p q with
     | Some (x, l, r) => (a x =? l) || (a x =? r)
-    | None => impl_gen noop_ne p a && impl_gen noop_ne q a
+    | None => impl_cons p a && impl_cons q a
     end
-  | CNot p => impl_gen noop_ne p a
+  | CNot p => impl_cons p a
   | CLinInt cs xs op k => cmp_sem op (lin_val cs xs a) k
   end.
-Definition impl_cons := impl_gen false.
-Definition exec_cons := impl_gen true.
